@@ -197,19 +197,24 @@ async def main(args):
                 out.violation("valid rule list rejected by POST /rules", {"status": st, "body": body[:200].decode("latin1"), "rules": len(big), "overlapping_invalid_posts": len(inside)})
                 continue
             listed = await A.api_json("/rules", timeout=30)
+            wall = time.time()
             c = await open_conn("127.0.0.1", P["http"])
             stc, _ = await http_connect(c, "127.0.0.1", origin.port)
             src = c.local[1]
             c.close()
             await asyncio.sleep(0.1)
-            got = None
+            got, found = None, False
             for _ in range(40):
-                hist = await A.api_json("/history", timeout=30)
-                rec = next((h for h in hist if int(h["source"].rsplit(":", 1)[1]) == src), None)
+                hist = await A.api_json("/history", timeout=60)
+                # a source port can have been used by an earlier probe of this run: the record is the one that started now
+                rec = next((h for h in hist if int(h["source"].rsplit(":", 1)[1]) == src and h.get("state") and abs(h["state"][0]["time"] / 1000.0 - wall) < 3.0), None)
                 if rec is not None:
-                    got = rec.get("connector")
+                    got, found = rec.get("connector"), True
                     break
-                await asyncio.sleep(0.1)
+                await asyncio.sleep(0.25)
+            if not found:
+                out.inconclusive += 1      # the probe's record could not be identified: no verdict on the decision, the listing is still judged
+                got = want
             if len(listed) != len(big) or (listed and listed[0].get("target") != want) or got != want:
                 out.violation("rule list in force after a successful POST /rules is not the posted one (invalid lists were posted while it was being compiled)",
                               {"posted_rules": len(big), "listed_rules": len(listed), "first_target_listed": listed[0].get("target") if listed else None, "first_target_posted": want,
